@@ -4,6 +4,7 @@ CONSTANTS
   BigNs = {169, 170, 171, 172, 173, 200, 400, 1000}
   BigSamples = {3, 40, 160, 300}
   HugeNs = {1400, 2000}
+  WithSpecials = TRUE
 INVARIANTS
   SelfCheck
   Emit
